@@ -469,7 +469,58 @@ def extract_xml_render(defs, consts):
     consts["doctype"] = wl[1]
 
 
-EXTRACTORS = [extract_entity, extract_html_escapes, extract_ids, extract_xml_render]
+def extract_unpretty(defs, consts):
+    """C18: which characters `is_whitespace` accepts and the xml:space keyword of
+    `in_preserve_space` (src/unpretty.rs)."""
+    src = strip_comments(read("src/unpretty.rs"))
+    body = fn_body(src, "is_whitespace", "whitespaceChars")
+    m = re.search(r"\.chars\(\)\s*\.all\(\s*\|\s*(\w+)\s*\|(.*)\)\s*$", body, flags=re.S)
+    if not m:
+        raise ExtractError("whitespaceChars: `is_whitespace` is not of the form `text.chars().all(|c| …)`")
+    var, pred = m.group(1), m.group(2).strip()
+    mm = re.fullmatch(r"matches!\(\s*" + re.escape(var) + r"\s*,(.*)\)", pred, flags=re.S)
+    if mm:
+        alts = mm.group(1)
+        chars = [unescape(c) for c in re.findall(CHAR, alts)]
+        rest = re.sub(CHAR, "", alts)
+        if not chars or re.sub(r"[\s|]", "", rest) != "" or rest.count("|") != len(chars) - 1:
+            raise ExtractError(f"whitespaceChars: the matches! pattern `{alts.strip()}` is not an alternation of char literals")
+        if any(len(c) != 1 for c in chars):
+            raise ExtractError("whitespaceChars: a literal of the matches! pattern is not a single character")
+        unicode_ws = False
+    elif re.fullmatch(re.escape(var) + r"\s*\.\s*is_whitespace\(\s*\)", pred):
+        chars = []
+        unicode_ws = True
+    else:
+        raise ExtractError(f"whitespaceChars: predicate `{pred}` is neither a matches! of char literals nor `c.is_whitespace()`")
+    defs.append("/-- `unpretty::is_whitespace` uses `char::is_whitespace` (all of Unicode White_Space). -/\n"
+                f"def whitespaceUnicode : Bool := {'true' if unicode_ws else 'false'}\n")
+    defs.append(f"def whitespaceChars : List Char := {lean_str(''.join(chars))}\n")
+    consts["whitespaceUnicode"] = unicode_ws
+    consts["whitespaceChars"] = chars
+    # the significance test must be the negation of the same predicate
+    sig = re.sub(r"\s+", "", fn_body(src, "is_significant_text_node", "is_significant_text_node"))
+    if "!is_whitespace(text)" not in sig:
+        raise ExtractError("is_significant_text_node: expected `!is_whitespace(text)`")
+    body = fn_body(src, "in_preserve_space", "preserveKeyword")
+    lits = re.findall(r'==\s*"((?:\\.|[^"\\])*)"', body)
+    if len(lits) != 1:
+        raise ExtractError(f"preserveKeyword: expected exactly one `== \"…\"` comparison in in_preserve_space, found {len(lits)}")
+    if "xml_space_name()" not in body or not re.search(r"for\s+\w+\s+in\s+xot\.ancestors\(", body):
+        raise ExtractError("in_preserve_space: expected a walk over `xot.ancestors(node)` looking up `xml_space_name()`")
+    kw = unescape(lits[0])
+    defs.append(f"def preserveKeyword : List Char := {lean_str(kw)}\n")
+    consts["preserveKeyword"] = kw
+    # collection first, removal second
+    top = re.sub(r"\s+", "", fn_body(src, "remove_insignificant_whitespace", "remove_insignificant_whitespace"))
+    if not (top.index("xot.descendants(node)") < top.index("to_remove.push(") < top.index("xot.remove(node)")):
+        raise ExtractError("remove_insignificant_whitespace: expected collect-then-remove over xot.descendants(node)")
+
+
+
+
+# every function named extract_* is an extractor, in definition order
+EXTRACTORS = [v for k, v in list(globals().items()) if k.startswith("extract_") and callable(v)]
 
 
 def main():
